@@ -15,6 +15,7 @@
 package storage
 
 import (
+	"bytes"
 	"context"
 	encoding "encoding/binary"
 	"os"
@@ -229,7 +230,12 @@ func (s *SSD) lookup(q lookupQuery) (matches message.Frame) {
 			if !it.Valid() {
 				return nil
 			}
-			it.Next()
+
+			// Continue after the message the previous page ended with. If it is not there
+			// (expired meanwhile, or stored on another broker) we are already past it.
+			if bytes.Equal(it.Item().Key(), q.StartFromID) {
+				it.Next()
+			}
 		}
 
 		matchesSize := 0
